@@ -43,3 +43,9 @@ pub proof fn lemma_join_front(a: Seq<char>, r: Seq<Seq<char>>, sep: Seq<char>)
         assert(join_seqs(x, sep) =~= a + sep + join_seqs(r, sep));
     }
 }
+
+/// `v.concat()` on a Vec<String>
+#[verifier::external_body]
+pub fn vx_vec_concat(v: &Vec<String>) -> (r: String)
+    ensures r@ == join_seqs(strs_view(v@), Seq::<char>::empty())
+{ unimplemented!() }
